@@ -12,7 +12,7 @@ ASSUMPTIONS = ["a failing script cancelling the run with exit status 105 is prov
 def run_p(seed, tier, replay=None):
     """in-process: which scripts a profile enables and which tests each applies to (real SetupScripts / is_enabled through a guarded
     hook) over rules with host/target platform specifications and host- and target-platform binaries, against Model/Scripts"""
-    n = 300 if tier == "quick" else 12000
+    n = 300 if tier == "quick" else 40000
     r = common.run_streams([("p_scripts", [seed, n, vlib.BUILD + "/scripts-tmp"])])
     items = [([b, args, idx], req, impl) for (b, args, idx, req, impl) in r.cases]
     mism, _ = common.compare(items, None)
